@@ -69,7 +69,7 @@ M = [
  ("r-debug-where-other-trait", ["C03:TP-where-trait"], IT, "        &mut wcb,\n    )?;\n    let wheres = wcb.build(|ty| quote!(#ty : #trait_));\n    Ok(quote! {\n        #[automatically_derived]\n        impl #impl_g #trait_ for #this_ty #wheres {\n            fn fmt(", "        &mut wcb,\n    )?;\n    let wheres = wcb.build(|ty| quote!(#ty : ::core::clone::Clone));\n    Ok(quote! {\n        #[automatically_derived]\n        impl #impl_g #trait_ for #this_ty #wheres {\n            fn fmt("),
  ("r-impl-args-assign-default-true", ["C09:DM-impl-args"], II, "        let mut make_assign = false;", "        let mut make_assign = true;"),
  ("r-impl-args-forms-swapped", ["C09:DM-impl-args"], II, "                OpForm::Binary => make_binary = true,\n                OpForm::Assign => make_assign = true,", "                OpForm::Binary => make_assign = true,\n                OpForm::Assign => make_binary = true,"),
- ("r-gate-flag-never-set", ["C01:unanalysable"], IT, "CompareOp::PartialOrd => self.partial_ord = true,", "CompareOp::PartialOrd => self.partial_ord = false,"),
+ ("r-gate-flag-never-set", ["C01:DM-gate"], IT, "CompareOp::PartialOrd => self.partial_ord = true,", "CompareOp::PartialOrd => self.partial_ord = false,"),
  ("r-entry-level-dropped", ["C04:ES-bounds-trace"], IT, "            if let Some(a) = self.items.get(&kind) {\n                use_bounds = a.push_bounds_to(wcb);\n            }", "            let _ = self.items.get(&kind);"),
  ("r-strip-unknown-names", ["C14:DM-strip-set"], IT, '            "hash" => self.is_match_cmp_attr(CompareOp::Hash),\n            _ => false,', '            "hash" => self.is_match_cmp_attr(CompareOp::Hash),\n            _ => true,'),
  ("r-dollar-matcher-negated", ["C01:TP-key-apply"], CO, "&|t| matches!(t, TokenTree::Punct(p) if p.as_char() == '$'),", "&|t| matches!(t, TokenTree::Punct(p) if p.as_char() != '$'),"),
